@@ -263,6 +263,7 @@ func doTable(t *testing.T, x *ctxT) {
 // checkWritten decodes packet bytes independently and compares with the property's framing rule
 // and the model's prediction.  Returns the decoded packet.
 type ctxT struct {
+	total   int             // violations recorded so far (all signatures)
 	overBad map[string]bool // modes whose reader mishandled a declared length > maxPacket
 	out     *vutil.Out
 	t       *testing.T
@@ -277,6 +278,7 @@ func (x *ctxT) viol(sig, what string, detail map[string]any) {
 		x.nviol = map[string]int{}
 	}
 	x.nviol[sig]++
+	x.total++
 	x.out.Extra["violation_counts"] = x.nviol
 	if x.nviol[sig] <= 2 {
 		x.out.Violation(sig, what, detail)
@@ -292,7 +294,11 @@ func (x *ctxT) checkWritten(m Mode, ref *Ref, diag *Ref, seq uint32, pkt, payloa
 		dd, derr = diag.Decode(seq, pkt)
 	}
 	if err != nil || !d.TagOK || d.Consumed != len(pkt) {
-		sig := "indep-decode:" + m.Class
+		// the real writer's untampered output fails under the standards: a C25 verdict whatever the model says
+		sig := "independent-decode:framing:" + m.String()
+		if err == nil && !d.TagOK {
+			sig = "independent-decode:mac:" + m.String()
+		}
 		what := fmt.Sprintf("%s: packet does not decode under the independent implementation of the standards (err=%v tagOK=%v consumed=%d of %d)", m, err, d.TagOK, d.Consumed, len(pkt))
 		// diagnose CBC x etm: is it the plain RFC 4253 encrypt-and-MAC layout keyed with the -etm MAC's key?
 		if diag != nil && derr == nil && dd.TagOK && dd.Consumed == len(pkt) && bytes.Equal(dd.Payload, payload) {
@@ -335,6 +341,7 @@ func doRoundTrip(t *testing.T, x *ctxT) {
 			return
 		}
 		ncase++
+		violBefore := x.total
 		m := c.Mode
 		rng := vutil.Rand(int64(ncase))
 		k := mkKeys(m, rng, c.StartCtr)
@@ -425,9 +432,9 @@ func doRoundTrip(t *testing.T, x *ctxT) {
 				if declared > maxPacket && c.Pkts[i].N <= maxPacket {
 					x.viol("roundtrip-packet_length>maxPacket", fmt.Sprintf("%s: payload of %d bytes (<= maxPacket) is written with packet_length %d, which the package's own reader rejects: %v", m, c.Pkts[i].N, declared, rerr), dd)
 				} else if m.Class == "CBCEtM" {
-					x.viol("roundtrip:"+m.Class, fmt.Sprintf("%s: reader rejected an untampered packet: %v", m, rerr), dd)
+					x.viol("roundtrip-rejected:"+m.String(), fmt.Sprintf("%s: reader rejected an untampered packet: %v", m, rerr), dd)
 				} else {
-					x.viol("roundtrip:"+m.Class, fmt.Sprintf("%s: reader rejected an untampered packet (%d bytes payload): %v", m, c.Pkts[i].N, rerr), dd)
+					x.viol("roundtrip-rejected:"+m.String(), fmt.Sprintf("%s: a reader keyed like the writer rejected an untampered packet (%d bytes payload, packet %d of %v): %v", m, c.Pkts[i].N, i+1, c.sizes(), rerr), dd)
 				}
 				break
 			}
@@ -440,7 +447,10 @@ func doRoundTrip(t *testing.T, x *ctxT) {
 				x.viol("seq-reader:"+m.Class, fmt.Sprintf("%s: reader sequence number after packet %d is %d, want %d", m, i+1, rc.SeqNum(), start+uint32(i)+1), det(i))
 			}
 		}
-		if c.Fin && delivered != len(c.Delivered) {
+		// Infrastructure only: the real code wrote, decoded and round-tripped this case without any
+		// violation, yet the model predicted another number of deliveries.  Whenever the real code
+		// misbehaved (a violation above), the disagreement with the model is a consequence, not a model error.
+		if c.Fin && delivered != len(c.Delivered) && x.total == violBefore {
 			x.info["model_delivery_mismatch"]++
 		}
 		if delivered == len(pk) {
@@ -521,7 +531,7 @@ func doIndepEncode(t *testing.T, x *ctxT) {
 				}
 				if rerr != nil {
 					det["error"] = rerr.Error()
-					sig := "indep-encode:" + m.Class
+					sig := "independent-encode-rejected:" + m.String()
 					what := fmt.Sprintf("%s: reader rejects a packet framed as the standards define (n=%d pad=%d): %v", m, len(payloads[i]), pads[i], rerr)
 					if m.Class == "CBCEtM" {
 						sig = "cbc-etm-read-as-encrypt-and-mac"
@@ -802,7 +812,15 @@ func doTamper(t *testing.T, x *ctxT) {
 		}
 		pk, _, err := writeAll(m, k, start, payloads, rng)
 		if err != nil {
-			t.Fatalf("write: %v", err)
+			x.viol("write-error:"+m.String(), fmt.Sprintf("%s: the real writer refused payloads %v: %v", m, c.sizes(), err), map[string]any{"mode": m, "sizes": c.sizes()})
+			return
+		}
+		// control: the untampered stream through the real reader.  If the real code does not even
+		// round-trip it, that is a defect of the real code (reported as such), not of the model.
+		ctrl, cerr, cpn := readStream(m, k, start, bytes.Join(pk, nil), len(pk))
+		if cpn != nil || cerr != nil || len(ctrl) != len(pk) {
+			x.viol("untampered-stream-rejected:"+m.String(), fmt.Sprintf("%s: the real reader, keyed like the writer, rejects the UNTAMPERED stream of payloads %v at packet %d (err=%v panic=%v); tamper cases on this stream are judged against what it does deliver", m, c.sizes(), len(ctrl)+1, cerr, cpn),
+				map[string]any{"mode": m, "sizes": c.sizes(), "startSeq": start, "key": fmt.Sprintf("%x", k.Key), "iv": fmt.Sprintf("%x", k.IV), "macKey": fmt.Sprintf("%x", k.MacKey)})
 		}
 		for i, d := range c.Delivered {
 			if d != i+1 {
@@ -900,7 +918,7 @@ func doTamper(t *testing.T, x *ctxT) {
 				x.viol("tamper-accepted:"+m.Class+":"+opname, fmt.Sprintf("%s: after%s the reader accepted the modified part of the stream (%d packets returned, the first %d are untouched)", m, v.desc, len(got), K), det)
 				continue
 			}
-			if len(got) < D {
+			if len(got) < D && len(got) < len(ctrl) { // fewer than predicted AND fewer than the untampered control delivers
 				early++
 				if early <= 5 {
 					t.Logf("early error (not a C26 verdict): %s %s delivered %d predicted %d err=%v", m, v.desc, len(got), D, rerr)
